@@ -67,7 +67,7 @@ namespace {
 struct SeqRow { int n = 0; std::string s; template <class Ar> void Serialize(Ar& ar) { ar << KeyValue("n", n) << KeyValue("s", s); } bool operator==(const SeqRow& o) const { return n == o.n && s == o.s; } };
 template <class C> std::string show_rows(const C& c) { std::string r; for (auto& x : c) r += vf::cat(x.n, ":", x.s, " "); return r; }
 template <class C> void run_csv_seq(vf::Ctx& c, const char* name) {
-	const size_t n = 1 + c.src.draw(8), p = c.src.draw(9); std::vector<SeqRow> data; for (size_t i = 0; i < n; i++) data.push_back({ static_cast<int>(i), "d" + std::to_string(c.src.draw(100)) });
+	const size_t n = 1 + c.src.draw(8), p = c.src.draw(9); std::vector<SeqRow> data; for (size_t i = 0; i < n; i++) data.push_back({ static_cast<int>(i), c.src.chance(1, 4) ? std::string() : "d" + std::to_string(c.src.draw(100)) });   // an empty cell is an empty string (loaded), not an absent value
 	C prior; { std::vector<SeqRow> pr; for (size_t i = 0; i < p; i++) pr.push_back({ 1000 + static_cast<int>(i), "p" + std::to_string(i) }); prior = C(pr.begin(), pr.end()); }
 	Cfg cfg; cfg.stream = c.src.coin(); std::string bytes; Cfg mem; Outcome so = save<CsvArchive>(data, bytes, mem); if (!so.ok()) c.fail("saving rows failed", so.str());
 	c.nontrivial = p >= 2 && n != p; c.label(p == 0 ? "prior-empty" : p < n ? "prior-shorter" : p == n ? "prior-same" : "prior-longer"); c.describe(vf::cat("csv ", name, " data=", n, " prior=", p, " stream=", cfg.stream));
@@ -77,11 +77,11 @@ template <class C> void run_csv_seq(vf::Ctx& c, const char* name) {
 	if (!(got == data)) c.fail("loading into a populated target gives a different value than the saved one", d);
 }
 template <class A, class C> void run_long_seq(vf::Ctx& c, int archId, const char* name) {
-	static const size_t sizes[] = { 4095, 4096, 4097, 4100, 5000, 8193 }; const size_t n = sizes[c.src.draw(6)], p = c.src.draw(7); std::vector<int> data(n); for (size_t i = 0; i < n; i++) data[i] = static_cast<int>(i * 7 + c.src.draw(3));
-	C prior; { std::vector<int> pr; for (size_t i = 0; i < p; i++) pr.push_back(-1 - static_cast<int>(i)); prior = C(pr.begin(), pr.end()); }
+	static const size_t sizes[] = { 4095, 4096, 4097, 4100, 5000, 8193 }; const size_t n = sizes[c.src.draw(6)]; static const size_t priors[] = { 0, 1, 2, 5, 4095, 4096, 4097, 6000 }; const size_t p = priors[c.src.draw(8)]; std::vector<int> data(n); for (size_t i = 0; i < n; i++) data[i] = static_cast<int>(i * 7 + c.src.draw(3));
+	C prior; { std::vector<int> pr; for (size_t i = 0; i < p; i++) pr.push_back(-1 - static_cast<int>(i)); if constexpr (std::is_same_v<C, std::valarray<int>>) prior = std::valarray<int>(pr.data(), pr.size()); else prior = C(pr.begin(), pr.end()); }
 	Cfg cfg; cfg.stream = c.src.coin(); std::string bytes; Cfg mem; Outcome so = save<A>(data, bytes, mem); if (!so.ok()) c.fail("saving failed", so.str());
 	c.nontrivial = true; c.label(vf::cat("n=", n)); c.describe(vf::cat(arch_name(archId), " ", name, " data=", n, " prior=", p, " stream=", cfg.stream));
-	Outcome lo = load<A>(prior, bytes, cfg); const std::vector<int> got(prior.begin(), prior.end());
+	Outcome lo = load<A>(prior, bytes, cfg); const std::vector<int> got(std::begin(prior), std::end(prior));
 	size_t firstDiff = 0; while (firstDiff < got.size() && firstDiff < n && got[firstDiff] == data[firstDiff]) firstDiff++;
 	const std::string d = vf::cat(arch_name(archId), " ", name, " data=", n, " prior=", p, " stream=", cfg.stream, " => ", lo.str(), " loaded size=", got.size(), " first difference at ", firstDiff);
 	if (!lo.ok()) c.fail("loading into a populated target failed", d);
@@ -118,9 +118,10 @@ VF_PROPERTY(map_modes_unloadable_values, 2, "maps whose document holds values th
 VF_PROPERTY(reload_csv_sequences, 3, "CSV (the archive that cannot announce a row count): 1..8 rows loaded into a vector / deque / list / forward_list already holding 0..8 other rows: the result is exactly the saved rows in order; memory and stream; non-trivial = prior length >= 2 and different from the data length") {
 	switch (c.src.draw(4)) { case 0: run_csv_seq<std::vector<SeqRow>>(c, "vector"); break; case 1: run_csv_seq<std::deque<SeqRow>>(c, "deque"); break; case 2: run_csv_seq<std::list<SeqRow>>(c, "list"); break; default: run_csv_seq<std::forward_list<SeqRow>>(c, "forward_list"); }
 }
-VF_PROPERTY(reload_long_sequences, 1, "arrays of 4095 .. 8193 integers (around and beyond the 4096-element cap of the size estimate) loaded through MessagePack and JSON into a vector / deque / list / forward_list holding 0..6 other elements: the result is exactly the saved sequence; non-trivial = always") {
+VF_PROPERTY(reload_long_sequences, 1, "arrays of 4095 .. 8193 integers (around and beyond the 4096-element cap of the size estimate) loaded through MessagePack and JSON into a vector / deque / list / forward_list holding 0, 1, 2, 5, 4095, 4096, 4097 or 6000 other elements (also valarray): the result is exactly the saved sequence; non-trivial = always") {
 	const bool mp = c.src.coin();
-	switch (c.src.draw(4)) {
+	switch (c.src.draw(5)) {
+	case 4: if (mp) run_long_seq<MsgPackArchive, std::valarray<int>>(c, MSGPACK, "valarray"); else run_long_seq<JsonArchive, std::valarray<int>>(c, JSON, "valarray"); break;
 	case 0: if (mp) run_long_seq<MsgPackArchive, std::vector<int>>(c, MSGPACK, "vector"); else run_long_seq<JsonArchive, std::vector<int>>(c, JSON, "vector"); break;
 	case 1: if (mp) run_long_seq<MsgPackArchive, std::deque<int>>(c, MSGPACK, "deque"); else run_long_seq<JsonArchive, std::deque<int>>(c, JSON, "deque"); break;
 	case 2: if (mp) run_long_seq<MsgPackArchive, std::list<int>>(c, MSGPACK, "list"); else run_long_seq<JsonArchive, std::list<int>>(c, JSON, "list"); break;
